@@ -39,6 +39,12 @@ def run(tier):
         if o["unicode"]:
             lines += rg.gen_escape_offsets(o, 70)
         rk.run_feed(chk, wd, f"json-{rc.opt_name(o)}", lines, None, [(l, bins[l]) for l in labels])
+    # strings and keys around the longest string a build can store (255 bytes with 1-byte lengths)
+    rk.run_feed(chk, wd, "json-longstrings", rg.gen_long_strings(rng, D, 255, 300 if quick else 4000), None,
+                [("small", bins["small"])])
+    # inputs that need about as many slots as the build can address (255 ids with 1-byte slot ids)
+    rk.run_feed(chk, wd, "json-slotlimit", rg.gen_slot_limit(rng, D, 255, 120 if quick else 2000), None,
+                [("small", bins["small"])])
     rk.run_mc(chk, wd, rk.group_by_opts(bins, variants[:2]), [("chars", "chars", 4, [0, 1, 10], "none", D)])
     # MessagePack: every encoding, prefix, corruption and random bytes (bounded kinds only)
     mp.run_msgpack_feed(chk, wd, "msgpack", rng, n, [(l, bins[l]) for l in ["def", "arduino", "small", "mid", "big"]],
